@@ -213,7 +213,7 @@ func (s *snap) msg(m *sipsp.PSIPMsg, success bool) {
 	if success {
 		s.kv("Method()", m.Method())
 		s.pfPos("Body", m.Body)
-		s.kv("len(Buf)", len(m.Buf))
+		s.kv("len(Buf)-start", len(m.Buf)-s.base)
 		if len(m.Buf) > 0 && len(s.buf) > 0 && &m.Buf[0] != &s.buf[0] {
 			s.kv("Buf", "NOT-THE-CALLERS-BUFFER")
 		}
